@@ -13,6 +13,10 @@ THEOREMS = {"Artap.Props.C03": [
     "C03_truncate_discarded_design", "C03_truncate_no_dominated_survivor",
     "C03_tournament_spec", "C03_tournament_total", "C03_float_order"]}
 AXIOMS_OK = FLOAT_AXIOMS
+# second tie to the code (tools/py2coq.py + coq/theories/GenProofs): the de-duplication of nondominated_truncate
+# rests on Individual.__hash__ / __eq__, whose source is translated on every run and proved equal to Model/IndividualEq.v
+from harness.core import translated_specs
+TRANSLATED = translated_specs("IndividualEqGen")
 TRUSTED = [
     "Coq 8.16.1 kernel; vm_compute for model evaluation (no native_compute)",
     "hand-written model Model/Selection.v tied to operators.py by this correspondence run (crowding values bit for bit, id lists and winners exactly)",
